@@ -2166,7 +2166,9 @@ fn main() {
         "docs" => {
             let prop = a[2].as_str();
             let ds = read_files(&a[3..]);
-            let r = match prop {
+            // a panic of the library on a replayed input is a violation too (it was reported as "the library panicked")
+            std::panic::set_hook(Box::new(|_| {}));
+            let r = match std::panic::catch_unwind(|| match prop {
                 "C05" => check_c05(&ds, 40),
                 "C06" => check_c06(&ds),
                 "C11" => {
@@ -2174,6 +2176,9 @@ fn main() {
                     nodes.and_then(|n| check_c11(&n)).map(|x| x.1)
                 }
                 _ => check_docs(prop, &ds),
+            }) {
+                Ok(r) => r,
+                Err(_) => Some("the library panicked".to_string()),
             };
             match r {
                 Some(e) => {
@@ -2194,7 +2199,13 @@ fn main() {
             let prop = a[2].as_str();
             let ds = read_files(&a[3..]);
             let r = match prop {
-                "C08" => check_c08(&ds[0], ds.get(1).map(|v| v.as_slice())),
+                "C08" => {
+                    std::panic::set_hook(Box::new(|_| {}));
+                    match std::panic::catch_unwind(|| check_c08(&ds[0], ds.get(1).map(|v| v.as_slice()))) {
+                        Ok(r) => r,
+                        Err(_) => Some("the library panicked".to_string()),
+                    }
+                }
                 _ => {
                     std::panic::set_hook(Box::new(|_| {}));
                     let mut res = None;
